@@ -149,7 +149,11 @@ def gen_case(rng, tier):
         steps.append("Z")
     # the application subscribes to the very rules of the connection's own method-return channel (known class
     # return_rule_hijack); only in small cases, where the reader is not kept waiting with msg_senders locked
-    if rng.random() < 0.07 and n <= 6 and style in ("random", "early"):
+    # (at most 7 returns/errors in the whole case: the method-return queue (8) never fills, so the reader never waits with
+    # msg_senders locked and the application's add_match never has to stand in line for it — who gets an async_lock mutex
+    # first after a wait of more than 0.5 ms is time dependent and not modelled)
+    replies = sum(1 for t in steps if t[0] in "RQUV")
+    if rng.random() < 0.07 and n <= 6 and replies <= 7 and style in ("random", "early"):
         which = rng.choice(["Y", "Y", "W", "YW"])
         for h in which:
             steps.insert(rng.randint(0, len(steps)), h)
